@@ -79,7 +79,7 @@ def coreExp : PExp → Bool
   | .num t => isFloatText t
   | .bool _ => true
   | .var n => !(n.contains '_')
-  | .call n args => n != "range" && coreList args
+  | .call n args => n != "range" && n.toList.all isLetter && coreList args
   | .un _ e => coreExp e
   | .bin _ l r => coreExp l && coreExp r
   | _ => false
